@@ -34,6 +34,39 @@ def lookup_by_spi(ctx, rule):
               detail={'returned': tq.text(BS.ret())})
 
 
+def init_request_gets_fresh_ike_sa(ctx, rule):
+    """an IKE_SA_INIT request is always executed by an IkeSa made for it: the controller never hands it to an IKE_SA it already has
+    (whatever it was found by - addresses, the initiator's SPI: both are chosen by the sender), where the window code would answer it
+    with a response stored for somebody else's request, or where its failure would take that IKE_SA down"""
+    dm = ctx.func('ikesacontroller.IkeSaController.dispatch_message')
+    DM = ctx.sval(dm)
+    dps = dm.call_params()
+    hdrs = [c for c in DM.calls_to(qual='message.Message.parse')]
+    ctors = DM.calls_to(callee='new ikesa.IkeSa')
+    pms = DM.calls_to(qual='ikesa.IkeSa.process_message')
+    ctx.floor('%s process_message hand-over in dispatch_message' % rule, len(pms), 1, rule=rule)
+    if not hdrs or not ctors:
+        ctx.check(False, rule, 'dispatch_message parses the header and creates responder IKE_SAs', key=(rule, 'init-fresh', 'anchors'),
+                  site=ctx.site(dm, dm.node))
+        return
+    H = strip_ids(hdrs[0].term)
+    is_init = strip_ids(DM.mk_cmp('==', ('attr', H, 'exchange_type'), DM.expr('Message.Exchange.IKE_SA_INIT')))
+    is_req = ('attr', H, 'is_request')
+
+    def decide(t):
+        t = strip_ids(t)
+        if t == is_init or t == is_req:
+            return True
+        if t == ('attr', H, 'is_response'):
+            return False
+        return None
+    fresh = {strip_ids(c.term) for c in ctors}
+    for c in pms:
+        r = strip_ids(tq.restrict(c.recv or NONE, decide))
+        ctx.check(r in fresh, rule, 'an IKE_SA_INIT request is processed by an IkeSa created for it, never by one the controller already holds',
+                  key=(rule, 'init-fresh'), site=ctx.site(dm, c.node), detail={'receiver for an IKE_SA_INIT request': tq.text(r, 300)})
+
+
 def successor_registration(ctx, esc, rule):
     """the controller's table gains the IKE_SA made by a rekey exactly when the old IKE_SA is in a state in which that successor is
     established (REKEYED on the responder, DEL_AFTER_REKEY_IKE_SA_REQ_SENT on the initiator) - never a half-built object that a refused
@@ -159,6 +192,7 @@ def run(ctx):
                   'a datagram for an unknown SPI is dropped without changing anything', key=('D1', 'unknown-spi-effect'),
                   site=ctx.site(dm, c.node))
     lookup_by_spi(ctx, 'D1')
+    init_request_gets_fresh_ike_sa(ctx, 'D1')
     # responder creation
     ctors = DM.calls_to(callee='new ikesa.IkeSa')
     ctx.floor('D1 responder IkeSa construction', len(ctors), 1)
@@ -288,6 +322,9 @@ def run(ctx):
     from .c09 import timer_coverage
     timer_coverage(ctx, ts, 'D2')
     successor_registration(ctx, esc, 'D3')
+    # an entry that leaves the table takes its kernel state with it: the teardown it runs before the removal reaches every CHILD_SA
+    from .c10 import kernel_teardown
+    kernel_teardown(ctx, esc, 'D3')
 
     # ---------------------------------------------------------------- D4
     ml = ctx.func('ikesacontroller.IkeSaController.main_loop')
